@@ -66,7 +66,6 @@ class _Writer:
         self.rng, self.plain = rng, plain
         self.buf, self.pos, self.line, self.col = [], 0, 1, 1
         self.first = True
-        self.tokens = []            # (text, start) of ID-like tokens, for uniqueness counts
 
     def _emit(self, s):
         self.buf.append(s)
@@ -572,13 +571,14 @@ def emit_family(tlc, family, max_objs, max_files, max_refs, max_postpone):
 def random_scenario(rng, max_objs=12, nfiles=1, max_refs=6, max_postpone=2):
     """A bigger forest than TLC enumerates, same well-formedness rules as MC_LoaderProc.Complete."""
     objs = []
+    limit = [max_objs]
 
     def add(kind, parent, slot, file):
         objs.append(dict(kind=kind, parent=parent, slot=slot, file=file, hdr=True, nref=0))
         return len(objs)
 
     def budget():
-        return max_objs - len(objs)
+        return limit[0] - len(objs)
 
     def fill_elems(i, file, depth):
         k = rng.choice([0, 1, 2, 2, 3, 4]) if depth < 3 else rng.choice([0, 1])
@@ -607,6 +607,7 @@ def random_scenario(rng, max_objs=12, nfiles=1, max_refs=6, max_postpone=2):
             add("Cell", i, "inner", file)
 
     for f in range(1, nfiles + 1):
+        limit[0] = max(len(objs) + 3, max_objs * f // nfiles)
         root = add("Model", 0, "", f)
         objs[root - 1]["hdr"] = rng.random() < 0.5
         if f == 1:
@@ -614,8 +615,6 @@ def random_scenario(rng, max_objs=12, nfiles=1, max_refs=6, max_postpone=2):
                 add("Import", root, "imports", f)
         if rng.random() < 0.4:
             add(rng.choice(["DefA", "DefB"]), root, "first", f)
-        per_file = max_objs * f // nfiles
-        saved, max_objs_f = max_objs, per_file
         fill_elems(root, f, 0)
         add("DefB", root, "elems", f)          # every file can be referred to
     n = len(objs)
